@@ -84,6 +84,16 @@ _add("remove in for", "do def v = x; for k in v do remove(v, k); end; 1 end",
      1)
 _add("mutate in comprehension", "do def v = x; [put(v, [k], 1) for k in v] "
      "end", 1)
+for _sel in ("keys", "values", "entries"):
+    _add("mutate in comprehension " + _sel,
+         "do def v = x; def g(k) do v[string(k) + 'x'] = 1; k end; "
+         "[g(k) for k in " + _sel + " v] end", 1)
+    _add("lc parallel " + _sel, "[[a, b] for a in " + _sel + " x also for b "
+         "in " + _sel + " y]", 2)
+    _add("sc parallel " + _sel, "<<[a, b] for a in " + _sel + " x also for b "
+         "in " + _sel + " y>>", 2)
+    _add("lc product " + _sel, "[[a, b] for a in " + _sel + " x for b in " +
+         _sel + " y]", 2)
 _add("self append", "do def v = x; append(v, v); v end", 1)
 _add("self add", "do def v = x; v + v end", 1)
 _add("self eq", "do def v = x; v == v and v <= v end", 1)
